@@ -51,6 +51,23 @@ def child(req):
     if r.readonly:
         f.close()
         f = nixio.File.open(req["path"], nixio.FileMode.ReadWrite)
+    variant = req.get("variant")
+    if variant in ("empty", "emptied"):
+        # flush points at which the file holds no entity at all: right after creation, and after everything was deleted
+        if variant == "emptied":
+            for blk in list(f.blocks):
+                del f.blocks[blk.name]
+            for sec in list(f.sections):
+                del f.sections[sec.name]
+        st = state(f)
+        st["ops"] = ops
+        st["trace"] = r.trace
+        with open(req["side"], "w") as fh:
+            json.dump(st, fh)
+            fh.flush()
+            os.fsync(fh.fileno())
+        f.flush()
+        os.kill(os.getpid(), signal.SIGKILL)
     # arrays grown by appends, compressed and uncompressed, rewritten in part
     b = f.create_block("durable block", "t")
     for i, comp in enumerate([nixio.Compression.No, nixio.Compression.DeflateNormal]):
